@@ -7,7 +7,7 @@ STUB_E1 = ["global allocator (deterministic auditing arena at a fixed address)",
 
 ASSUME_E1 = [
     "sampling: a clean batch is evidence, not proof",
-    "brood is exercised through the harness component zoo (plain, zero-sized, boxed, 64-aligned, one-byte, Vec-owning, 16-aligned) and the generated call-site catalogues for a 7-component registry (and, for C01 C03 C05 C06 C11 C13 C17, a 10-component registry with two identifier bytes; for C01 C06 C11 C13 an 8-component registry with no padding bits)",
+    "brood is exercised through the harness component zoo (plain, zero-sized, boxed, 64-aligned, one-byte, Vec-owning, 16-aligned) and the generated call-site catalogues for a 7-component registry (and, for C01 C03 C05 C06 C11 C13 C17, a 10-component registry with two identifier bytes; for C01 C06 C11 C13 an 8-component registry with no padding bits; for C01 C03 C13 a 9-component registry)",
     "the reference model (BTreeMap of identifier -> component values) is trusted",
     "the dump hook (World::verif_dump, cfg brood_verif) reports the structures faithfully",
 ]
@@ -45,6 +45,11 @@ for _p, _q, _t in (("C01", 40000, 400000), ("C03", 40000, 400000), ("C05", 40000
 for _p, _q, _t in (("C01", 30000, 300000), ("C06", 30000, 300000), ("C13", 30000, 300000), ("C11", 30, 400)):
     for _tier, _n in (("quick", _q), ("thorough", _t)):
         PLAN[_p][_tier] = PLAN[_p][_tier] + [{"binary": "worldsim8", "package": "worldsim8", "profile": _p, "runs": _n, "chunks_per_job": 2 if _p != "C11" else 4}]
+
+# The 9-component registry: the ninth component is the first bit of a second identifier byte.
+for _p, _q, _t in (("C01", 30000, 300000), ("C03", 30000, 300000), ("C13", 30000, 300000)):
+    for _tier, _n in (("quick", _q), ("thorough", _t)):
+        PLAN[_p][_tier] = PLAN[_p][_tier] + [{"binary": "worldsim9", "package": "worldsim9", "profile": _p, "runs": _n, "chunks_per_job": 2}]
 
 # Thorough tier of C05: the same seeds (histories capped at 25 operations) under the Miri interpreter.
 PLAN["C05"]["thorough"] = PLAN["C05"]["thorough"] + [{"binary": "miri:worldsim", "package": "worldsim", "profile": "C05", "runs": 192, "chunks_per_job": 1,
@@ -140,7 +145,7 @@ PROPERTY_INFO = {
     "C05": info("exploration",
                 GEN_RULE + "non-trivial = the history grew or shrank column storage (reserve, shrink_to_fit, batch adoption, shape change); the arena auditor, red zones, poison and the dump/allocator cross-check run on every operation; distinct = distinct operation lists",
                 ["reserve", "shrink_to_fit", "extend", "entry_add_shape_change"],
-                ["reserve", "shrink_to_fit", "extend", "entry_add_shape_change", "world_has_empty_archetype", "query_mutating", "entries_sub_query"]),
+                ["reserve", "shrink_to_fit", "extend", "entry_add_shape_change", "world_has_empty_archetype", "query_mutating", "entries_sub_query", "ragged_batch_refused"]),
     "C06": info("exploration",
                 GEN_RULE + "non-trivial = at least one round trip or crash+restore of a non-empty world, or a mirrored lock-step operation; distinct = distinct operation lists",
                 ["roundtrip_with_nonempty_free_list", "lockstep_mirrored_op", "crash_restore_from_snapshot", "roundtrip_json", "roundtrip_tokens_compact", "roundtrip_tokens_readable", "roundtrip_tokens_compact_struct_as_seq"],
